@@ -91,12 +91,16 @@ template <typename T> static void h_put_path(std::vector<T>& a, const Path<T>& p
 #endif
   }
 }
+// KE prefix: the input arrays of this line are built the way a C client may build them from the documented
+// layout: EVERY path is an entry, an empty one as `0, 0`, and C counts every entry (the library's own
+// CreateCPaths* never writes such an entry, so only a caller-built array shows one to the decoders).
+static bool g_keep_empty = false;
 // a heap array exactly as long as it states, so that ASan sees any over-read by the library
 template <typename T> static T* h_enc_paths(const Paths<T>& ps, bool null_if_empty) {
   if (null_if_empty && ps.empty()) return nullptr;
   std::vector<T> a; a.push_back(0); a.push_back(0);
   size_t cnt = 0;
-  for (auto& p : ps) if (!p.empty()) { h_put_path(a, p); ++cnt; }
+  for (auto& p : ps) if (g_keep_empty || !p.empty()) { h_put_path(a, p); ++cnt; }
   a[0] = elem((int64_t)a.size(), (T*)nullptr); a[1] = elem((int64_t)cnt, (T*)nullptr);
   T* r = new T[a.size()]; std::copy(a.begin(), a.end(), r); return r;
 }
@@ -215,6 +219,32 @@ static void handle(Toks& t, std::ostream& os) {
   const std::string cmd = t.next();
   // ------------------------------------------------------------ marshalling kernels, called directly
   if (cmd == "DIM") { os << D; return; }
+  if (cmd == "KE") { g_keep_empty = true; try { handle(t, os); } catch (...) { g_keep_empty = false; throw; } g_keep_empty = false; return; }
+  // the decoders on caller-built arrays that keep empty paths as `0, 0` entries (HK64 / HKD / HKS)
+  if (cmd == "HK64") {
+    Paths64 ps = rd_ps64(t);
+    g_keep_empty = true; U64 ua(h_enc_paths(ps, false)); g_keep_empty = false;
+    os << "ARR "; pr_raw(os, ua.get());
+    Paths64 back = ConvertCPathsToPathsT(ua.get());
+    os << " DEC "; pr(os, back); os << " CMP " << same_paths(back, ps);
+    return;
+  }
+  if (cmd == "HKD") {
+    PathsD ps = rd_psD(t);
+    g_keep_empty = true; UD ua(h_enc_paths(ps, false)); g_keep_empty = false;
+    os << "ARR "; pr_raw(os, ua.get());
+    PathsD back = ConvertCPathsToPathsT(ua.get());
+    os << " DEC "; pr(os, back); os << " CMP " << same_paths(back, ps);
+    return;
+  }
+  if (cmd == "HKS") {   // ConvertCPathsDToPaths64 on a caller-built array against ScalePaths of the same paths
+    double scale = dbl_of(t.u64()); PathsD ps = rd_psD(t);
+    g_keep_empty = true; UD ua(h_enc_paths(ps, false)); g_keep_empty = false;
+    Paths64 back = ConvertCPathsDToPaths64(ua.get(), scale);
+    int ec = 0; Paths64 nat = ScalePaths<int64_t, double>(ps, scale, ec);
+    os << "DEC "; pr(os, back); os << " NAT "; pr(os, nat); os << " CMP " << same_paths(back, nat);
+    return;
+  }
   if (cmd == "MK64") {
     Paths64 ps = rd_ps64(t);
     int64_t* a = CreateCPathsFromPathsT(ps);
